@@ -5,7 +5,7 @@ import z3
 from z3 import And, Exists, ForAll, If, Implies, Int as ZInt, IntVal, Not, Or, Real as ZReal, RealVal, ToInt, ToReal
 
 from .engine import MULF, Contract, LoopSpec, Registry
-from .values import (AliasOf, Bool, Const, EmptyMap, FixedList, FnOf, Int, IntMapOf, ListOf, NoneT, ObjOf, OpaqueOf, Real, Same, TupleOf,
+from .values import (AliasOf, Bool, Const, DictOf, EmptyMap, FixedList, FnOf, Int, IntMapOf, ListOf, NoneT, ObjOf, OpaqueOf, Real, Same, TupleOf,
                      to_real, to_z3, uid)
 
 REG = Registry()
@@ -57,3 +57,25 @@ def exists(n, body, name="e"):
 def mul(a, b):
     """The abstracted product used by functions verified with options={'abstract_mul': True}."""
     return MULF(to_real(a), to_real(b))
+
+
+def writes(*paths):
+    """Frame entries by path string, for contracts whose body is verified (no shape: not usable to havoc at a call site):
+    "self._grout"        the attribute _grout of the object self
+    "self.bhe.b.H"       nested attribute
+    "self.monthly_cl[]"  the list (or map) object itself, mutated in place
+    "self.*"             every attribute of the object (constructors)"""
+    out = []
+    for p in paths:
+        in_place = p.endswith("[]")
+        parts = (p[:-2] if in_place else p).split(".")
+
+        def fn(P, parts=parts, in_place=in_place):
+            o = getattr(P, parts[0])
+            inner = parts[1:] if in_place else parts[1:-1]
+            for k in inner:
+                o = o.fields[k]
+            return o if in_place else (o, parts[-1])
+
+        out.append((fn, Same()))
+    return out
